@@ -141,6 +141,14 @@ def check(ctx):
     ev = Evaluator(P)
     B.must_raise("G1", gd, "unknown axis in integrate/average (_get_dims_from_axis)", lambda: ev.run_paths(gd, lambda: dict(self=make_grid(), da=make_da("da", [dimsym("AX", "center")]), axis=[Sym("NOPE")])))
     B.must_return("G1", gd, "valid: _get_dims_from_axis", lambda: ev.run_paths(gd, lambda: dict(self=make_grid(), da=make_da("da", [dimsym("AX", "center")]), axis=Sym("AX"))))
+    from .c16 import run_set_metrics
+
+    smf = P.func("grid:Grid.set_metrics")
+    B.must_raise("G1", smf, "metric registered for an axis the grid lacks", lambda: run_set_metrics(P, (Sym("NOPE"),), "dx_c"))
+    B.must_raise("G1", smf, "metric registered for an axis the grid lacks, given as a bare name", lambda: run_set_metrics(P, Sym("NOPE"), "dx_c"))
+    B.must_raise("G1", smf, "metric registered for a known and an unknown axis", lambda: run_set_metrics(P, (AX, Sym("NOPE")), "a_cc"))
+    B.must_raise("G1", smf, "metric registered for two unknown axes", lambda: run_set_metrics(P, (Sym("NOPE"), Sym("NADA")), "a_cc"))
+    B.must_return("G1", smf, "valid: metric registered for the grid's axes", lambda: run_set_metrics(P, (AX, AY), "a_cc"))
     B.must_raise("G1", P.func("grid_ufunc:apply_as_grid_ufunc"), "unknown axis in apply_as_grid_ufunc", lambda: run_apply(P, "(X:center)->(X:left)", [(Sym("NOPE"),)], boundary_width={"X": (1, 0)}))
     # ---- G2 zero or two dimensions of the axis
     B.must_raise("G2", disp, "data without a dimension of the axis", lambda: full_dispatch(P, "diff", "center", "left", dims=[Sym("t"), Sym("other")]))
@@ -163,9 +171,16 @@ def check(ctx):
     B.must_raise("G3", disp, "unknown position word as target", lambda: full_dispatch(P, "diff", "center", "middle"))
     B.must_raise("G3", cums, "cumsum to a position the axis lacks", lambda: _run_cumsum_positions(P, "center", "outer", ["center", "left"]))
     B.must_raise("G3", cums, "cumsum to the same position", lambda: _run_cumsum(P, "left", "left"))
+    # the impossible shift on the second of two axes: nothing computed for the first axis may stand in for it
+    B.must_raise("G3", cums, "cumsum over two axes, same position on the second", lambda: _run_cumsum(P, "center", {AX: "left", AY: "center"}, axnames=("AX", "AY"), axis_arg=[AX, AY]))
+    B.must_raise("G3", cums, "cumsum over two axes, left->right on the second", lambda: _run_cumsum(P, "left", {AX: "center", AY: "right"}, axnames=("AX", "AY"), axis_arg=[AX, AY]))
+    B.must_raise("G3", cums, "cumsum over two axes, unknown position word on the second", lambda: _run_cumsum(P, "center", {AX: "right", AY: "middle"}, axnames=("AX", "AY"), axis_arg=[AX, AY]))
+    B.must_return("G3", cums, "valid: cumsum over two axes", lambda: _run_cumsum(P, "center", {AX: "left", AY: "right"}, axnames=("AX", "AY"), axis_arg=[AX, AY]))
     # ---- G4 unknown position word
     ax_init = P.func("axis:Axis.__init__")
     B.must_raise("G4", ax_init, "Axis with an unknown position word", lambda: run_axis_init(P, ["center", "middle"]))
+    B.must_raise("G4", ax_init, "Axis with an unknown position word for which a default shift is given", lambda: run_axis_init(P, ["center", "middle"], default_shifts={"middle": "center"}))
+    B.must_return("G4", ax_init, "valid: Axis with center/left and a default shift given", lambda: run_axis_init(P, ["center", "left"], default_shifts={"left": "center"}))
     B.must_raise("G4", ax_init, "Axis whose dimension is not in the dataset", lambda: run_axis_init(P, ["center", "left"], bad_dim=True))
     B.must_return("G4", ax_init, "valid: Axis with center/left", lambda: run_axis_init(P, ["center", "left"]))
     # ... and in a grid-ufunc signature, given as text or as annotations (a word that merely starts like a position is unknown too)
